@@ -54,6 +54,11 @@ func TestPlan(t *testing.T) {
 		}
 		p.Shards = append(p.Shards, ev.ShardSpec{Name: "positions-0", Test: "^TestC18Positions$", TimeoutS: 900})
 		p.Shards = append(p.Shards, ev.ShardSpec{Name: "positions-race-0", Test: "^TestC18Positions$", Race: true, TimeoutS: 1800})
+		if ts, err := exec.LookPath("taskset"); err == nil {
+			// the worker count follows runtime.NumCPU (the affinity mask), not GOMAXPROCS
+			p.Shards = append(p.Shards, ev.ShardSpec{Name: "positions-1cpu-0", Test: "^TestC18Positions$", Wrap: []string{ts, "-c", "0"}, TimeoutS: 1800})
+			p.Shards = append(p.Shards, ev.ShardSpec{Name: "positions-2cpu-0", Test: "^TestC18Positions$", Wrap: []string{ts, "-c", "0,1"}, TimeoutS: 1800})
+		}
 		n, checks := 6, 400
 		if thorough {
 			n, checks = 12, 4000
